@@ -106,6 +106,14 @@ fn check(c: &Case, obs: &mut Obs) {
     let PduIr::AssocRq { pcs, .. } = &c.neg.req else { return };
     obs.nontrivial = !pcs.is_empty();
     obs.class(format!("contexts:{}", pcs.len().min(5)));
+    if let PduIr::AssocRq { user, .. } = &c.neg.req {
+        let req_max = user.iter().find_map(|u| if let UserItem::MaxLength(n) = u { Some(*n) } else { None });
+        obs.class(format!(
+            "requestor-max:{}:acceptor-max:{}",
+            match req_max { None => "absent", Some(0) => "0", _ => "given" },
+            match c.neg.cfg.max_pdu_length { None => "unset", Some(0) => "0", _ => "set" }
+        ));
+    }
     let out = probe::negotiate::run(&c.neg);
     compare("features", &c.neg, &out, with, obs);
     if let Some(o) = &c.out_nofeat {
@@ -188,6 +196,7 @@ pub fn run(ctx: &Ctx) {
                                     transfer_syntaxes: tc.iter().map(|s| s.to_string()).collect(),
                                     promiscuous,
                                     accept_called_only: called_only,
+                                    max_pdu_length: [None, Some(8192u32), None, Some(1018), Some(0), Some(65536), None][k % 7],
                                 },
                                 req,
                             });
@@ -221,7 +230,7 @@ pub fn run(ctx: &Ctx) {
     }
     ctx.run_enum(
         "single_context_universe",
-        "exhaustive: one proposed context with abstract syntax in {A, B, C, A+NUL} x every transfer syntax list of length 1-3 over {Implicit LE, Explicit LE, JPEG baseline, Deflated Explicit LE, an unregistered UID, Implicit LE+NUL} (258 lists) x acceptor abstract syntaxes in subsets of {A,B} x 7 transfer syntax configurations (none, ILE, ELE, ILE+ELE, JPEG+Deflated, Deflated, ILE+NUL) x promiscuous on/off; access control, protocol version, application context and requestor maximum length crossed fully on every 8th configuration and rotating otherwise; run through the hook in the main build, and (for cases involving Deflated, every 4th) also in the feature-less regprobe build where Deflated is registered but unsupported; oracle: reference negotiation model",
+        "exhaustive: one proposed context with abstract syntax in {A, B, C, A+NUL} x every transfer syntax list of length 1-3 over {Implicit LE, Explicit LE, JPEG baseline, Deflated Explicit LE, an unregistered UID, Implicit LE+NUL} (258 lists) x acceptor abstract syntaxes in subsets of {A,B} x 7 transfer syntax configurations (none, ILE, ELE, ILE+ELE, JPEG+Deflated, Deflated, ILE+NUL) x promiscuous on/off; access control, protocol version, application context, requestor maximum length (absent / 0 / 1018 / 16384 / 2^32-1) and the acceptor's own configured maximum (unset / 0 / 1018 / 8192 / 65536) crossed fully on every 8th configuration and rotating otherwise; run through the hook in the main build, and (for cases involving Deflated, every 4th) also in the feature-less regprobe build where Deflated is registered but unsupported; oracle: reference negotiation model",
         items,
         true,
         check,
@@ -229,7 +238,7 @@ pub fn run(ctx: &Ctx) {
     // ---------------- random multi-context requests
     ctx.run_prop(
         "random_requests",
-        "random requests with 0-6 contexts (ids preserved, order preserved, duplicates allowed), transfer syntax lists of length 0-4, random acceptor configurations incl. empty abstract syntax list, requestor maximum length absent / 0 / small / huge; main build only; non-trivial = at least one context",
+        "random requests with 0-6 contexts (ids preserved, order preserved, duplicates allowed), transfer syntax lists of length 0-4, random acceptor configurations incl. empty abstract syntax list, requestor maximum length absent / 0 / small / huge, acceptor's own maximum unset / 0 / 1018 / 8192 / random; main build only; non-trivial = at least one context",
         || {
             let abs = proptest::sample::select(ABS.to_vec());
             let ts = proptest::sample::select(TSS.to_vec());
@@ -245,8 +254,9 @@ pub fn run(ctx: &Ctx) {
                 prop_oneof![8 => Just(STD_APP_CTX.to_string()), 1 => Just("1.2.840.10008.3.1.1.1\0".to_string()), 1 => Just("1.2.3".to_string())],
                 prop_oneof![Just("THIS-SCP".to_string()), Just("OTHER".to_string())],
                 proptest::option::of(prop_oneof![Just(0u32), Just(1018), any::<u32>()]),
+                proptest::option::of(prop_oneof![Just(0u32), Just(1018), Just(8192), 1018u32..200_000]),
             )
-                .prop_map(|(pcs, ca, ct, promiscuous, called_only, pv, app, called, max)| Case {
+                .prop_map(|(pcs, ca, ct, promiscuous, called_only, pv, app, called, max, own_max)| Case {
                     neg: NegCase {
                         cfg: AcceptorCfg {
                             ae_title: "THIS-SCP".into(),
@@ -254,6 +264,7 @@ pub fn run(ctx: &Ctx) {
                             transfer_syntaxes: ct.into_iter().map(|s| s.to_string()).collect(),
                             promiscuous,
                             accept_called_only: called_only,
+                            max_pdu_length: own_max,
                         },
                         req: mk_req(pcs, pv, &app, &called, max),
                     },
